@@ -1,5 +1,7 @@
 import Driver.C11Mon
 import OidcModel.Generated.AuthResponse
+import OidcModel.Generated.AuthError
+import OidcModel.Generated.RequestObject
 open Kv
 
 /-! C11 model driver: recomputes the Location value / the HTML page with the regenerated model and compares
@@ -55,10 +57,44 @@ def parseHypOK (l : Line) : Bool :=
     && UA.locationQuery uri == bytesOf l "u.rawq"
     && UA.sameTarget base (UA.locationBase uri)
 
+def strOf (b : List UInt8) : String := (String.fromUTF8? ⟨b.toArray⟩).getD ""
+
+/-- source-traced cases: the regenerated functions that decide WHAT is handed to the transport code are run on the source
+    values and compared with what the encoder recorded (`p`):
+    * the state on the stored request = `Gen.CopyRequestObjectToAuthRequest` on (plain parameter, request-object claims) when
+      the provider honours the request object, the plain parameter otherwise;
+    * error code / description = `GenErr.DefaultToServerError` on the storage's error value and the description argument of
+      the call site (`err.Error()` in the callback, the provider's own wording for CreateAuthRequest);
+    * `AR.Sprintf text []` = what the real `fmt.Sprintf(text)` answered (the model of printf without operands). -/
+def sourceModelOK (l : Line) : Bool :=
+  if !bool l "src" then true else
+  let i := parseInput l
+  let produced (k : String) : List UA.Bytes := UA.valuesOf k.toUTF8.toList i.params
+  let opt (b : UA.Bytes) : List UA.Bytes := if b.isEmpty then [] else [b]
+  let plain := strOf (bytesOf l "src.st.plain")
+  let ro := strOf (bytesOf l "src.st.ro")
+  let stored : AuthRequestIn :=
+    if bool l "src.ro.honoured" then Gen.CopyRequestObjectToAuthRequest 0 { State := plain, Nonce := "n-plain" } { ro := { State := ro, Nonce := str l "src.ro.nonce" } }
+    else { State := plain }
+  let stateOK := produced "state" == opt stored.State.toUTF8.toList
+  let errOK :=
+    if !has l "src.err.kind" || !bool l "src.desc.traced" then true else
+    let text := bytesOf l "src.err.text"
+    let inner : AR.OidcError := { ErrorType := str l "src.err.code", Description := bytesOf l "src.err.desc" }
+    let gerr : AR.GoErr := match str l "src.err.kind" with
+      | "oidc" => .oidc inner
+      | "wrap-oidc" => .wraps text inner
+      | _ => .plain text
+    let descArg : AR.Bytes := if str l "src.err.site" == "CreateAuthRequest" then AR.ascii "unable to save auth request" else AR.errText gerr
+    let e := GenErr.DefaultToServerError 0 gerr descArg
+    produced "error_description" == opt e.Description && produced "error" == [AR.ascii e.ErrorType]
+      && AR.Sprintf (bytesOf l "src.err.rawtext") == bytesOf l "src.err.sprintf"
+  stateOK && errOK
+
 def step (l : Line) : String :=
   let m := model l
   let hyp := parseHypOK l
-  let agree := observedOutcome l == some m && hyp
+  let agree := observedOutcome l == some m && hyp && sourceModelOK l
   s!"case={str l "case"} class={classOf l} model={showOutcome m} observed={str l "obs"} monitor={showMon (monitorLine l)} hyp={if hyp then 1 else 0} agree={if agree then 1 else 0}"
 
 end Drv.C11
